@@ -176,7 +176,7 @@ func backpropAcrossReturn(rootNode *RootAssertionNode, node *ast.ReturnStmt) err
 				return true
 			}
 
-			switch fun := call.Fun.(type) {
+			switch fun := ast.Unparen(call.Fun).(type) {
 			case *ast.Ident:
 				if !handleIdent(fun) {
 					return computeAndConsumeResults(rootNode, node)
